@@ -15,7 +15,7 @@ from pathlib import Path
 from ..common import REPO, Unsupported
 from . import models as M
 from .models import Ctx
-from .sym import SBool, SList, SSet, band, bite, bnot, bor, guard_of, is_sym, merge, wrap
+from .sym import SBool, SList, SSet, band, bite, bnot, bor, guard_of, is_sym, lift, merge, wrap
 
 SRC = REPO / "src" / "y0"
 MODULES = {
@@ -113,6 +113,7 @@ class Interp:
         from y0 import struct as y0struct
 
         self.sources = {}
+        self.module_consts = {}
         for mod, rel in MODULES.items():
             path = SRC / rel
             tree = ast.parse(path.read_text())
@@ -120,6 +121,8 @@ class Interp:
             for node in tree.body:
                 if isinstance(node, ast.FunctionDef):
                     self.funcs[(mod, node.name)] = PyFunc(self, mod, node)
+                elif isinstance(node, ast.Assign) and len(node.targets) == 1 and isinstance(node.targets[0], ast.Name) and isinstance(node.value, ast.Constant):
+                    self.module_consts[node.targets[0].id] = node.value.value  # e.g. DEFAULT_TAG, DEFULT_PREFIX
                 elif isinstance(node, ast.ClassDef):
                     self.classes.setdefault(node.name, {})
                     for sub in node.body:
@@ -144,8 +147,8 @@ class Interp:
             g[name] = val
         for name in ("TypeError", "KeyError", "ValueError", "RuntimeError", "NotImplementedError", "Iterable", "Sequence", "Collection", "Any", "None"):
             g[name] = name
-        g["DEFAULT_TAG"] = "hidden"
-        g["DEFULT_PREFIX"] = "u_"
+        for k, v in self.module_consts.items():
+            g.setdefault(k, v)
         g["attrgetter"] = __import__("operator").attrgetter
 
     def lookup_func(self, name, mod=None):
@@ -168,6 +171,17 @@ class Interp:
         Ctx.pc, Ctx.raises = True, []
         try:
             val = self.apply(fn, list(args), dict(kwargs))
+            return val, list(Ctx.raises)
+        finally:
+            Ctx.pc, Ctx.raises = saved
+
+    def apply_entry(self, classmethod_name, *args, **kwargs):
+        """Call a classmethod of NxMixedGraph (e.g. from_latent_variable_dag)."""
+        f = self.classes["NxMixedGraph"][classmethod_name]
+        saved = (Ctx.pc, Ctx.raises)
+        Ctx.pc, Ctx.raises = True, []
+        try:
+            val = self.apply(Bound(f, ClassRef("NxMixedGraph")), list(args), dict(kwargs))
             return val, list(Ctx.raises)
         finally:
             Ctx.pc, Ctx.raises = saved
@@ -428,7 +442,17 @@ class Interp:
         return e.value
 
     def e_JoinedStr(self, e, fr):
-        return "<fstring>"
+        parts = []
+        for v in e.values:
+            if isinstance(v, ast.Constant):
+                parts.append(str(v.value))
+            else:
+                try:
+                    val = self.eval(v.value, fr)
+                except Unsupported:
+                    val = "<sym>"
+                parts.append(str(val) if not isinstance(val, (SSet, SList, SBool)) else "<sym>")
+        return "".join(parts)
 
     def e_Name(self, e, fr):
         if e.id in fr.env:
@@ -628,6 +652,8 @@ class Interp:
             return guard_of(self.apply(Bound(self.classes["NxMixedGraph"]["__contains__"], coll), [x], {}))
         if isinstance(coll, NodesView):
             return coll.g.contains(x)
+        if isinstance(coll, AttrView):
+            return coll.has(x)
         return x in coll
 
     def e_Attribute(self, e, fr):
@@ -693,7 +719,9 @@ class Interp:
         if isinstance(obj, (SSet, SList)):
             raise Unsupported("index into a symbolic collection")
         if isinstance(obj, NodesView):
-            return obj.attrs(key)
+            return AttrView(obj.g, key)
+        if isinstance(obj, AttrView):
+            return obj.get(key)
         return obj[key]
 
     def e_Lambda(self, e, fr):
@@ -858,9 +886,28 @@ class Judgement:
         return f"J({self.left},{self.right}|{self.conditions}:{self.separated})"
 
 
+class AttrView:
+    """Attribute dict of one node of a symbolic graph: key -> (has-guard, value-guard)."""
+
+    def __init__(self, g, v):
+        self.g, self.v = g, v
+
+    def has(self, key):
+        return self.g.attr_has.get((self.v, key), False)
+
+    def get(self, key):
+        return wrap(self.g.attr.get((self.v, key), False))
+
+
 class NodesView:
     def __init__(self, g):
         self.g = g
+
+    def items(self):
+        return SList([(self.g.node[v], (v, AttrView(self.g, v))) for v in self.g.U])
+
+    def values(self):
+        return SList([(self.g.node[v], AttrView(self.g, v)) for v in self.g.U])
 
     def __call__(self, data=False):
         return self.g.nodes(data=data)
@@ -1059,6 +1106,36 @@ def m_iter(interp, x):
     return x
 
 
+def m_enumerate(interp, it, start=0):
+    """enumerate over a guarded list: the index of an element is the number of present elements before it,
+    so each (candidate, possible index) pair becomes one guarded element (a case split)."""
+    import z3
+
+    if not isinstance(it, (SSet, SList)) or SList.of(it).is_concrete():
+        vals = SList.of(it).concrete() if isinstance(it, (SSet, SList)) else list(it)
+        return list(enumerate(vals, start))
+    items = SList.of(it).items
+    out = []
+    for j, (g, x) in enumerate(items):
+        earlier = [lift(h) for h, _ in items[:j]]
+        for i in range(j + 1):
+            if not earlier:
+                cnt = (i == 0)
+            else:
+                cnt = z3.And(z3.AtMost(*earlier, i), z3.AtLeast(*earlier, i)) if i <= len(earlier) else False
+            out.append((band(g, cnt), (start + i, x)))
+    return SList(out)
+
+
+def nx_set_node_attributes(g, value, name):
+    if isinstance(value, dict):
+        raise Unsupported("set_node_attributes with a dict")
+    for v in g.U:
+        here = band(Ctx.pc, g.node[v])
+        g.attr_has[(v, name)] = bor(g.attr_has.get((v, name), False), here)
+        g.attr[(v, name)] = bite(here, guard_of(value), g.attr.get((v, name), False))
+
+
 class Choice(SList):
     """One-of value (result of min over a guarded collection): guarded alternatives."""
 
@@ -1131,6 +1208,7 @@ BUILTIN_MODELS = {
     iter: m_iter,
     min: m_min,
     itt.groupby: m_groupby,
+    enumerate: m_enumerate,
 }
 
 
@@ -1147,6 +1225,7 @@ NX_FUNCS = {
     "is_directed_acyclic_graph": M.nx_is_dag,
     "topological_sort": nx_topological_sort,
     "all_simple_paths": M.nx_all_simple_paths,
+    "set_node_attributes": nx_set_node_attributes,
     "edge_boundary": M.nx_edge_boundary,
     "node_boundary": M.nx_node_boundary,
 }
